@@ -32,6 +32,9 @@ func TestStress(t *testing.T) {
 		for _, f := range fs {
 			r.Violate("C11:stress:"+f.Key, f.Msg, sreplay{i, fm})
 		}
+		if len(h.Stuck) > 0 {
+			break // do not pay the 20 s watchdog again for every further history of this shard
+		}
 		if len(fs) > 0 {
 			continue
 		}
